@@ -94,6 +94,8 @@ impl Display for Variant<'_> {
             Self::Type => write!(f, "{TYPE_KEYWORD}"),
             Self::Variable(variable, _) => write!(f, "{variable}"),
             Self::Lambda(variable, implicit, domain, body) => {
+                let domain = binder_domain(domain);
+
                 if *implicit {
                     write!(f, "{{{variable} : {domain}}} => {body}")
                 } else {
@@ -105,6 +107,8 @@ impl Display for Variant<'_> {
                 free_variables(codomain, 0, &mut variables);
 
                 if variables.contains(&0) {
+                    let domain = binder_domain(domain);
+
                     if *implicit {
                         write!(f, "{{{variable} : {domain}}} -> {codomain}")
                     } else {
@@ -159,6 +163,23 @@ impl Display for Variant<'_> {
                 write!(f, "if {condition} then {then_branch} else {else_branch}")
             }
         }
+    }
+}
+
+// Convert the domain of a binder to a string. The grammar requires a let in this position to be
+// parenthesized.
+fn binder_domain(term: &Term) -> String {
+    match &term.variant {
+        Variant::Unifier(subterm, _) => {
+            // We `clone` the borrowed `subterm` to avoid holding the dynamic borrow for too long.
+            if let Some(subterm) = { subterm.borrow().clone() } {
+                binder_domain(&subterm)
+            } else {
+                format!("{term}")
+            }
+        }
+        Variant::Let(_, _) => format!("({term})"),
+        _ => format!("{term}"),
     }
 }
 
